@@ -119,8 +119,57 @@ type Invalid struct {
 	WantErr bool   `json:"want_error"` // a parse error is reported (else the dump just ends)
 	// NoSnapshot: the damage is in the lines that open the dump, so no snapshot
 	// is produced for it; the call reports the error and hands the stop line back.
-	NoSnapshot bool   `json:"no_snapshot,omitempty"`
-	Kind       string `json:"kind"`
+	NoSnapshot bool `json:"no_snapshot,omitempty"`
+	// PrevDump: the marker sits in the dump that FOLLOWS the one that must stop
+	// (its first line is the stop line).
+	PrevDump bool   `json:"prev_dump,omitempty"`
+	Kind     string `json:"kind"`
+}
+
+// IndentClash: an indented goroutine dump, exactly one blank line, then a line
+// that lacks the indentation - plain text or the header of an unindented dump.
+// The documented grammar has one indentation per dump: the line cannot
+// continue the dump, the call reports the inconsistency and hands the line
+// back. Returns nil if the stream has no goroutine dump.
+func IndentClash(r *core.Rng, d *Doc, tag int) *Invalid {
+	ii := -1
+	for i, it := range d.Items {
+		if it.Kind == "dump" {
+			ii = i
+			break
+		}
+	}
+	if ii < 0 {
+		return nil
+	}
+	it := &d.Items[ii]
+	if it.Indent == "" {
+		it.Indent = r.Pick("    ", "\t", "  ")
+	}
+	it.NoEOL = false
+	eol := it.EOL
+	if eol == "" {
+		eol = "\n"
+	}
+	d.Items = d.Items[: ii+1 : ii+1]
+	d.Items = append(d.Items, Item{Kind: "junk", Text: eol})
+	if r.Chance(0.4) {
+		m := fmt.Sprintf("### text without the indentation %d", tag)
+		d.Items = append(d.Items, Item{Kind: "junk", Text: m + "\n"}, Item{Kind: "junk", Text: "more text\n"})
+		return &Invalid{Item: ii, Marker: m, WantErr: true, Kind: "indented dump: unindented text after its blank separator"}
+	}
+	// an unindented (or differently indented) dump: a copy of the first one
+	cl := (&Doc{Items: []Item{*it}}).Clone().Items[0]
+	cl.Indent = ""
+	if it.Indent != "\t" && r.Chance(0.3) {
+		cl.Indent = "\t"
+	}
+	id := 900000000 + tag
+	cl.Gors[0].ID = id
+	cl.Gors[0].Header = fmt.Sprintf("goroutine %d [running]:", id)
+	m := cl.Indent + cl.Gors[0].Header
+	d.Items = append(d.Items, cl, Item{Kind: "junk", Text: eol}, Item{Kind: "junk", Text: cl.Indent + "the end\n"})
+	return &Invalid{Item: ii, Marker: m, WantErr: true, PrevDump: true, Kind: "indented dump: a dump with another indentation after its blank separator"}
 }
 
 // MalformPrecise damages one dump so that the stop line is known. Returns nil
